@@ -479,7 +479,15 @@ theorem hooksOk_constMul (σ : Settings) (m : Nat) : HooksOk (Hooks.constMul σ 
     refine ⟨h.1, ?_⟩
     simp only [h.2, if_true]
     exact ⟨_, false, rfl⟩
-  rootInvOv f hf := by simp [Hooks.constMul] at hf
+  rootInvOv f hf c w hw r hr := by
+    simp only [Hooks.constMul, Option.some.injEq] at hf
+    subst hf
+    have h := subsQuery_ok σ (.rootInv (kwRootInv c)) hw
+    simp only [Sum.inl.injEq] at hr
+    subst hr
+    refine ⟨h.1, ?_⟩
+    simp only [h.2, if_true]
+    exact ⟨_, rfl⟩
   iqlOv f hf := by simp [Hooks.constMul] at hf
   sampleOv f hf := by simp [Hooks.constMul] at hf
 
